@@ -624,12 +624,62 @@ def shard(items):
     return report
 
 
+ODD_NAMES = ["_", "dark-red", "Read Only", "x__y", "ab_"]
+
+
+def styled_map_leg(report):
+    """a `map` entry takes precedence over `name_style`: members whose names no style can convert (functional-API names such as
+    'dark-red', '_') are legal as long as `map` names them explicitly; every style x {map by name, map by member} x every non-empty
+    subset of odd members next to two ordinary ones; creation must succeed, mapped members are represented by their map target, and
+    every member round-trips"""
+    for base, is_flag in ((enum.Enum, False), (enum.Flag, True)):
+        for r in (1, 2):
+            for odd in itertools.combinations(ODD_NAMES, r):
+                names = ["plain_one", *odd, "plain_two"]
+                cls = base("Odd", {n: (1 << i) for i, n in enumerate(names)})
+                for style in NameStyle:
+                    for by in ("name", "member"):
+                        mp = {(n if by == "name" else cls[n]): f"mapped{i}" for i, n in enumerate(odd)}
+                        prov = (flag_by_member_names(cls, name_style=style, map=mp) if is_flag else enum_by_name(cls, name_style=style, map=mp))
+                        case = {"leg": "styled_map", "base": base.__name__, "odd": list(odd), "style": style.name, "by": by}
+                        report.case(("styled_map", base.__name__, odd, style.name, by), nontrivial=True, sample=case)
+                        text = f"{base.__name__} with members {names}, name_style={style.name}, map for {list(odd)} by {by}"
+                        try:
+                            retort = Retort(recipe=[prov])
+                            dumper, loader = retort.get_dumper(cls), retort.get_loader(cls)
+                        except Exception as e:  # noqa: BLE001
+                            report.outcome("styled_map:creation_failed")
+                            report.violation({"check": "C18.styled_map", "problem": "creation_failed", "exc": type(e).__name__},
+                                             f"{text}: creation raised {type(e).__name__}: {str(getattr(e, '__cause__', None) or e)[:120]}; "
+                                             f"every member that no style can convert is named by map", case)
+                            continue
+                        report.outcome("styled_map:created")
+                        for i, n in enumerate(names):
+                            report.evaluations += 1
+                            m = cls[n]
+                            try:
+                                d = dumper(m)
+                                back = loader(d)
+                            except Exception as e:  # noqa: BLE001
+                                report.violation({"check": "C18.styled_map", "problem": "roundtrip", "exc": type(e).__name__},
+                                                 f"{text}: member {n!r}: {type(e).__name__}", case)
+                                break
+                            want = f"mapped{odd.index(n)}" if n in odd else None
+                            rep = d[0] if is_flag and isinstance(d, list) and len(d) == 1 else d
+                            if back != m or (want is not None and rep != want):
+                                report.violation({"check": "C18.styled_map", "problem": "wrong_representation"},
+                                                 f"{text}: member {n!r} dumped as {d!r} and loaded back as {back!r}"
+                                                 + (f", map says {want!r}" if want else ""), case)
+                                break
+
+
 def run(tier):
     specs = class_specs(tier)
     report = Report()
     # simplest-first inside every shard, heavy classes spread evenly
     shards = [specs[i::N_SHARDS] for i in range(N_SHARDS)]
     parallel.run_shards(shard, [s for s in shards if s], report=report)
+    styled_map_leg(report)
     return report
 
 
@@ -676,6 +726,12 @@ def extra_evidence(report, tier):
 
 
 def replay(case):
+    if case.get("leg") == "styled_map":
+        report = Report()
+        styled_map_leg(report)
+        for v in report.violations.values():
+            return v["what"]
+        return None
     spec = codec.dec(case["spec"])
     prog = codec.dec(case["prog"])
     report = Report()
